@@ -31,3 +31,8 @@ def gen_args(gen):
     """(stop, start) the generator was created with"""
     f = gen.gi_frame.f_locals
     return (f["stop"], f["start"])
+
+
+def gen_val(gen):
+    """the counter value held by the suspended generator (its last drawn value, by the state invariant)"""
+    return gen.gi_frame.f_locals["val"]
